@@ -60,7 +60,7 @@ Proof.
   induction fuel as [|f IH]; intros off len s s' H; cbn [Walk.cfgval_loop] in H; [discriminate|].
   destruct (Nat.ltb off len); [|injection H as <-; reflexivity].
   bindok H. destruct x as [name t]. bindok H. bindok H. bindok H.
-  apply IH in H. apply set_attr_pay in E2 as [E2 _]. congruence.
+  apply IH in H. cbn [w_pay] in H. apply set_attr_pay in E2 as [E2 _]. congruence.
 Qed.
 
 Theorem walk_list_pay ds idx s s' : walk_list ds idx s = Ok s' -> w_pay s' = w_pay s.
@@ -70,7 +70,7 @@ Proof.
   - unfold same_pay. intros; congruence.
   - intros; eapply single_pay; eauto.
   - intros; eapply bitfield_pay; eauto.
-  - intros s0 s1 _ H. unfold same_pay. cbn [w_pay]. eapply cfgval_loop_pay; eauto.
+  - intros s0 s1 _ _ H. unfold same_pay. cbn [w_pay]. eapply cfgval_loop_pay; eauto.
 Qed.
 End PayloadRoute.
 
